@@ -476,4 +476,153 @@ theorem delCanonAbove_clears : ∀ (f : Nat) (canon : Map Nat) (i top : Nat), to
             · subst hki; simp
             · rw [upd_other _ _ _ _ hki]; exact hnone k hk) n (by omega)
 
+/-! ### the loops of `BlockChain.insert` (fix 3f14ce8) -/
+
+theorem dropAt_apply (store : Map Blk) (lk : Map Loc) (n o t : Nat) :
+    dropAt store lk n o t =
+      if ∃ y, store o = some y ∧ y.number = n ∧ t ∈ y.txs ∧ ∃ l, lk t = some l ∧ l.blk = y.id then none else lk t := by
+  unfold dropAt
+  cases hy : store o with
+  | none => simp
+  | some y =>
+    simp only
+    by_cases hn : y.number = n
+    · rw [if_pos hn, dropLookupsOf_apply]
+      by_cases hc : t ∈ y.txs ∧ ∃ l, lk t = some l ∧ l.blk = y.id
+      · rw [if_pos hc, if_pos ⟨y, rfl, hn, hc.1, hc.2⟩]
+      · rw [if_neg hc, if_neg]
+        rintro ⟨y', hy', _, h1, h2⟩
+        cases hy'
+        exact hc ⟨h1, h2⟩
+    · rw [if_neg hn, if_neg]
+      rintro ⟨y', hy', hn', _⟩
+      cases hy'
+      exact hn hn'
+
+/-- the number-index component of the "entries above" loop of `insert` is the loop of `HeaderChain.WriteHeader` -/
+theorem dropAbove_fst (store : Map Blk) (pre : Map Nat) : ∀ (f i : Nat) (c : Map Nat) (lk : Map Loc),
+    (∀ n, i ≤ n → c n = pre n) → (dropAbove store pre f i c lk).1 = delCanonAbove c f i := by
+  intro f
+  induction f with
+  | zero => intro i c lk _; rfl
+  | succ f ih =>
+    intro i c lk hag
+    unfold dropAbove delCanonAbove
+    rw [hag i (Nat.le_refl _)]
+    cases hp : pre i with
+    | none => rfl
+    | some o =>
+      simp only
+      exact ih (i + 1) _ _ (fun n hn => by rw [upd_other _ _ _ _ (by omega)]; exact hag n (by omega))
+
+/-- the lookup component only deletes, and only lookups that point into a block indexed at or above the start -/
+theorem dropAbove_lk (store : Map Blk) (pre : Map Nat) : ∀ (f i : Nat) (c : Map Nat) (lk : Map Loc) (t : Nat),
+    (dropAbove store pre f i c lk).2 t = lk t ∨
+      ((dropAbove store pre f i c lk).2 t = none ∧ ∃ l m o y, lk t = some l ∧ i ≤ m ∧ pre m = some o ∧
+        store o = some y ∧ y.number = m ∧ t ∈ y.txs ∧ l.blk = y.id) := by
+  intro f
+  induction f with
+  | zero => intro i c lk t; exact .inl rfl
+  | succ f ih =>
+    intro i c lk t
+    unfold dropAbove
+    cases hp : pre i with
+    | none => exact .inl rfl
+    | some o =>
+      simp only
+      have hd := dropAt_apply store lk i o t
+      rcases ih (i + 1) (upd c i none) (dropAt store lk i o) t with h | ⟨h1, l, m, o', y, hl, hm, hpm, hy, hyn, hty, hlb⟩
+      · rw [h, hd]
+        split
+        · rename_i hex
+          obtain ⟨y, hy, hyn, hty, l, hl, hlb⟩ := hex
+          exact .inr ⟨rfl, l, i, o, y, hl, Nat.le_refl _, hp, hy, hyn, hty, hlb⟩
+        · exact .inl rfl
+      · rw [h1]
+        rw [hd] at hl
+        split at hl
+        · cases hl
+        · exact .inr ⟨rfl, l, m, o', y, hl, by omega, hpm, hy, hyn, hty, hlb⟩
+
+theorem dropAbove_none (store : Map Blk) (pre : Map Nat) (f i : Nat) (c : Map Nat) (lk : Map Loc) (t : Nat)
+    (h : lk t = none) : (dropAbove store pre f i c lk).2 t = none := by
+  rcases dropAbove_lk store pre f i c lk t with h1 | ⟨h1, _⟩
+  · rw [h1, h]
+  · exact h1
+
+/-- while the entries are contiguous and the fuel lasts, every lookup into a block indexed in the range is deleted -/
+theorem dropAbove_drops (store : Map Blk) (pre : Map Nat) : ∀ (f i : Nat) (c : Map Nat) (lk : Map Loc) (top : Nat),
+    top ≤ i + f → (∀ n, i ≤ n → n < top → (pre n).isSome = true) →
+    ∀ m, i ≤ m → m < top → ∀ o y, pre m = some o → store o = some y → y.number = m → ∀ t, t ∈ y.txs →
+      ∀ l, lk t = some l → l.blk = y.id → (dropAbove store pre f i c lk).2 t = none := by
+  intro f
+  induction f with
+  | zero => intro i c lk top hf _ m hm1 hm2; omega
+  | succ f ih =>
+    intro i c lk top hf hsome m hm1 hm2 o y hpm hy hyn t hty l hl hlb
+    unfold dropAbove
+    cases hp : pre i with
+    | none =>
+      have := hsome i (Nat.le_refl _) (by omega)
+      rw [hp] at this
+      cases this
+    | some o' =>
+      simp only
+      have hd := dropAt_apply store lk i o' t
+      by_cases hmi : m = i
+      · subst hmi
+        rw [hp] at hpm
+        cases hpm
+        apply dropAbove_none
+        rw [hd, if_pos ⟨y, hy, hyn, hty, l, hl, hlb⟩]
+      · cases hl' : dropAt store lk i o' t with
+        | none => exact dropAbove_none _ _ _ _ _ _ _ hl'
+        | some l' =>
+          have : l' = l := by
+            rw [hd] at hl'
+            split at hl'
+            · cases hl'
+            · rw [hl] at hl'; cases hl'; rfl
+          subst this
+          exact ih (i + 1) _ _ top (by omega) (fun n hn1 hn2 => hsome n (by omega) hn2) m (by omega) hm2 o y hpm hy hyn t
+            hty l' hl' hlb
+
+theorem repointBelow_stop (store : Map Blk) (pre : Map Nat) (f hash number : Nat) (c : Map Nat) (lk : Map Loc)
+    (h : pre number = some hash) : repointBelow store pre f hash number c lk = (c, lk) := by
+  cases f with
+  | zero => rfl
+  | succ f => unfold repointBelow; rw [if_pos h]
+
+/-- where the read-only walk succeeds, the number-index component of the "stale entries below" loop of `insert` is the
+    overwrite loop of `HeaderChain.WriteHeader` -/
+theorem repointBelow_fst (store : Map Blk) (pre : Map Nat) : ∀ (f hash number : Nat) (c : Map Nat) (lk : Map Loc)
+    (c2 : Map Nat), (∀ n, n ≤ number → c n = pre n) → overwriteStale store f c hash number = (c2, true) →
+      (repointBelow store pre f hash number c lk).1 = c2 := by
+  intro f
+  induction f with
+  | zero => intro hash number c lk c2 _ h; simp [overwriteStale] at h
+  | succ f ih =>
+    intro hash number c lk c2 hag h
+    unfold overwriteStale at h
+    unfold repointBelow
+    rw [hag number (Nat.le_refl _)] at h
+    by_cases hc : pre number = some hash
+    · rw [if_pos hc] at h ⊢
+      cases h; rfl
+    · rw [if_neg hc] at h ⊢
+      simp only at h
+      cases hx : store hash with
+      | none => rw [hx] at h; cases h
+      | some x =>
+        rw [hx] at h
+        simp only at h ⊢
+        by_cases hxn : x.number ≠ number
+        · rw [if_pos hxn] at h; cases h
+        · rw [if_neg hxn] at h ⊢
+          cases number with
+          | zero => cases h
+          | succ k =>
+            simp only at h ⊢
+            exact ih _ _ _ _ _ (fun n hn => by rw [upd_other _ _ _ _ (by omega)]; exact hag n (by omega)) h
+
 end Aqv.Chain
